@@ -371,14 +371,13 @@ const TimeZone::Data::LocalTime* TimeZone::Data::findLocalTime(
       std::upper_bound(transitions.begin(), transitions.end(), sentry, CompareLocalTime());
   assert(transI != transitions.begin());
 
-  if (transI == transitions.end())
-  {
-    // FIXME: use TZ-env
-    return &localtimes[transitions.back().localtimeIdx];
-  }
-
+  // After the last transition (FIXME: use TZ-env) no later transition can have
+  // skipped this local time, but the last one may have repeated it, so do not
+  // return here: go on to the repeat test below.
+  const bool afterLast = (transI == transitions.end());
   Transition prior_trans = *(transI - 1);
-  int64_t prior_second = transI->utctime - 1 + localtimes[prior_trans.localtimeIdx].utcOffset;
+  int64_t prior_second = afterLast ? 0 :
+      transI->utctime - 1 + localtimes[prior_trans.localtimeIdx].utcOffset;
 
   // row UTC time             isdst  offset  Local time (PRC)     Prior second local time
   //  1  1989-09-16 17:00:00Z   0      8.0   1989-09-17 01:00:00
@@ -389,7 +388,7 @@ const TimeZone::Data::LocalTime* TimeZone::Data::findLocalTime(
 
   // input 1991-04-14 02:30:00, found row 4,
   //  4  1991-04-13 18:00:00Z   1      9.0   1991-04-14 03:00:00  1991-04-14 01:59:59
-  if (prior_second < localtime)
+  if (!afterLast && prior_second < localtime)
   {
     // it's a skip
     // printf("SKIP: prev %ld local %ld start %ld\n", prior_second, localtime, transI->localtime);
